@@ -1,13 +1,78 @@
 package main
 
-import "verif/govc"
+import (
+	"fmt"
+	"sort"
+	"strings"
 
-// EffectCfg configures the effect-contract obligations of a property (filled in by effects checks).
+	"verif/govc"
+)
+
+// EffectCfg configures the effect-contract obligations of a property (C01): every repository function in the
+// call closure of the consensus entry points answers for the nondeterminism-relevant primitives of its own
+// body; each primitive must be declared by an `effect` clause in the package's contract file.
 type EffectCfg struct {
-	Kind  string   `json:"kind"`
-	Roots []string `json:"roots"`
-	Allow []string `json:"allow"`
+	Kind        string   `json:"kind"`
+	Roots       []string `json:"roots"`
+	RootMethods []string `json:"root_methods"` // methods reached through reflection (json/rlp encoders of stored items)
+	SkipPkgs    []string `json:"skip_pkgs"`
+	MinFuncs    int      `json:"min_funcs"`
 }
 
 func runEffects(e *govc.Engine, cfg *EffectCfg, prop string, ev *Evidence, addViolation func(obl, text, detail string, res *govc.SolverResult)) {
+	found, notes := e.EffectScan(cfg.Roots, cfg.RootMethods, cfg.SkipPkgs)
+	for _, n := range notes {
+		addViolation("effect.binding", "effect scan: "+n, "", nil)
+	}
+	keys := make([]string, 0, len(found))
+	for k := range found {
+		keys = append(keys, k)
+	}
+	sort.Strings(keys)
+	declaredUsed := map[string]bool{}
+	nEff := 0
+	for _, k := range keys {
+		ev.Coverage.Obligations++
+		ev.Coverage.EffectObls++
+		decl := e.DB.Effects[k]
+		var undeclared []string
+		for _, ef := range found[k] {
+			nEff++
+			if _, ok := decl[ef.ID]; ok {
+				declaredUsed[k+" "+ef.ID] = true
+				continue
+			}
+			undeclared = append(undeclared, fmt.Sprintf("%s (%s at %s:%d)", ef.ID, ef.Detail, strings.TrimPrefix(ef.Pos.Filename, repoDir+"/"), ef.Pos.Line))
+		}
+		if len(undeclared) == 0 {
+			ev.Coverage.Discharged++
+			st := ev.BySolver["effect-scan"]
+			if st == nil {
+				st = &SolverStat{}
+				ev.BySolver["effect-scan"] = st
+			}
+			st.Count++
+			continue
+		}
+		addViolation("effect."+short(k), "the body contains a nondeterminism-relevant primitive that its contract does not declare: "+strings.Join(undeclared, "; "),
+			"effect clause missing: a consensus-path function may range over a map, start a goroutine, select, receive from a channel, read the clock/environment/random source or convert a pointer to an integer only if its contract declares it with a justification (C01)", nil)
+	}
+	// declared effects that no longer exist are reported as notes only (harmless), but a declared function that fell
+	// out of the closure is a binding problem worth knowing
+	var stale []string
+	for k, m := range e.DB.Effects {
+		for id := range m {
+			if !declaredUsed[k+" "+id] {
+				stale = append(stale, short(k)+" "+id)
+			}
+		}
+	}
+	sort.Strings(stale)
+	if len(stale) > 0 {
+		ev.addAssumption("effect clauses that matched nothing in this run (stale, harmless): " + strings.Join(stale, ", "))
+	}
+	if cfg.MinFuncs > 0 && len(keys) < cfg.MinFuncs {
+		addViolation("effect.count", fmt.Sprintf("the consensus call closure has only %d repository functions, expected at least %d (a root stopped binding)", len(keys), cfg.MinFuncs), "", nil)
+	}
+	ev.addAssumption(fmt.Sprintf("effect obligations: %d repository functions in the CHA call closure of the consensus entry points, %d declared primitives; decided by a syntactic scan of go/ssa (not SMT); dependencies (iavl, tm-db, go-ethereum, protobuf, encoding/json, rlp, sort) are assumed deterministic", len(keys), nEff))
 }
